@@ -228,51 +228,52 @@ pub fn run(ctx: &RunCtx) -> i32 {
     let full: Vec<(Delay, Gap)> = delays.iter().flat_map(|d| gaps.iter().map(move |g| (*d, *g))).collect();
     let red: Vec<(Delay, Gap)> = red_delays.iter().flat_map(|d| red_gaps.iter().map(move |g| (*d, *g))).collect();
     let (full_len, red_len) = if thorough { (4, 7) } else { (3, 5) };
-    // enumerate chains as index vectors
-    fn chains(alpha: usize, len: usize) -> Vec<Vec<usize>> {
-        let mut out: Vec<Vec<usize>> = vec![];
-        let mut frontier: Vec<Vec<usize>> = vec![vec![]];
+    // chains are enumerated lazily from their index (digits in base |menu|)
+    fn chain_of(mut ix: u64, alpha: usize, len: usize) -> Vec<usize> {
+        let mut v = Vec::with_capacity(len);
         for _ in 0..len {
-            let mut next = vec![];
-            for c in &frontier {
-                for a in 0..alpha {
-                    let mut x = c.clone();
-                    x.push(a);
-                    next.push(x);
-                }
-            }
-            frontier = next;
+            v.push((ix % alpha as u64) as usize);
+            ix /= alpha as u64;
         }
-        out.extend(frontier);
-        out
+        v
     }
-    let mut jobs: Vec<(usize, Vec<(Delay, Gap)>, usize)> = vec![];
-    for (ci, _) in cfgs.iter().enumerate() {
-        // chains of exactly the maximal length cover all shorter prefixes (verdicts are taken after every send)
-        for c in chains(full.len(), full_len) {
-            jobs.push((ci, c.iter().map(|i| full[*i]).collect(), 0));
+    let pd = [Delay::Ms(1), Delay::Ms(7), Delay::Ms(100), Delay::JustBeforeRto, Delay::AfterRetransmissions(1), Delay::AfterRetransmissions(2)];
+    // (configuration, family, index): family 0 = full menu, 1 = reduced menu, 2..=4 = periodic with period 1..=3
+    let n_full = (full.len() as u64).pow(full_len as u32);
+    let n_red = (red.len() as u64).pow(red_len as u32);
+    let n_per: Vec<u64> = (1..=3u32).map(|p| (pd.len() as u64).pow(p)).collect();
+    let per_cfg = n_full + n_red + n_per.iter().sum::<u64>();
+    let n_jobs = per_cfg * cfgs.len() as u64;
+    let decode = |job: u64| -> (usize, Vec<(Delay, Gap)>, usize) {
+        let ci = (job / per_cfg) as usize;
+        let mut k = job % per_cfg;
+        if k < n_full {
+            return (ci, chain_of(k, full.len(), full_len).iter().map(|i| full[*i]).collect(), 0);
         }
-        for c in chains(red.len(), red_len) {
-            jobs.push((ci, c.iter().map(|i| red[*i]).collect(), 0));
+        k -= n_full;
+        if k < n_red {
+            return (ci, chain_of(k, red.len(), red_len).iter().map(|i| red[*i]).collect(), 0);
         }
-        // periodic chains of period <= 3 over the delay menu, repeated to 300 transactions
-        let pd = [Delay::Ms(1), Delay::Ms(7), Delay::Ms(100), Delay::JustBeforeRto, Delay::AfterRetransmissions(1), Delay::AfterRetransmissions(2)];
-        for period in 1..=3usize {
-            for c in chains(pd.len(), period) {
-                jobs.push((ci, c.iter().map(|i| (pd[*i], Gap::Immediately)).collect(), 300));
+        k -= n_red;
+        for (p, n) in n_per.iter().enumerate() {
+            if k < *n {
+                return (ci, chain_of(k, pd.len(), p + 1).iter().map(|i| (pd[*i], Gap::Immediately)).collect(), 300);
             }
+            k -= n;
         }
-    }
-    let n_jobs = jobs.len();
-    jobs.par_chunks(64).for_each(|chunk| {
+        unreachable!()
+    };
+    let chunk = 4096u64;
+    (0..(n_jobs + chunk - 1) / chunk).into_par_iter().for_each(|c| {
         let mut r = Report::new();
         let mut worst = 0.0f64;
-        for (ci, chain, repeat) in chunk {
-            let res = run_chain(&cfgs[*ci], &apps, chain, *repeat, &mut r);
+        for job in (c * chunk)..((c + 1) * chunk).min(n_jobs) {
+            let (ci, chain, repeat) = decode(job);
+            let res = run_chain(&cfgs[ci], &apps, &chain, repeat, &mut r);
             r.transitions += res.steps;
             r.states += res.steps;
             worst = worst.max(res.max_rel_err);
-            if *repeat > 0 {
+            if repeat > 0 {
                 r.sym("periodic-300");
             }
         }
@@ -280,11 +281,11 @@ pub fn run(ctx: &RunCtx) -> i32 {
         shared.merge(r);
     });
     let mut rep = shared.into_inner();
-    rep.sample(json!({"config": cfgs[4].show(), "chain": format!("{:?}", &jobs[5].1)}));
-    rep.sample(json!({"config": cfgs[0].show(), "periodic_chain_to_300": format!("{:?}", &jobs[jobs.len() - 1].1)}));
+    rep.sample(json!({"config": cfgs[4].show(), "chain": format!("{:?}", decode(4 * per_cfg + 5).1)}));
+    rep.sample(json!({"config": cfgs[0].show(), "periodic_chain_to_300": format!("{:?}", decode(per_cfg - 1).1)}));
     rep.outcome("within-tolerance");
     rep.outcome(format!("violations:{}", rep.violations.len()));
-    rep.add_extra("chains", n_jobs as u64);
+    rep.add_extra("chains", n_jobs);
     crate::util::finish(
         ctx,
         rep,
